@@ -21,13 +21,14 @@ from .. import tlc, runs
 from .. import scenarios as S
 
 DT = 1.0 / 64
+RIKS_MAX = 12      # upper bound of the arc-length steps (NSteps of the model for Riks)
 
 
 def _solvers():
-    from cardillo.solver import Moreau, BackwardEuler, Rattle, DualStormerVerlet, ScipyIVP, ScipyDAE, Newton
+    from cardillo.solver import Moreau, BackwardEuler, Rattle, DualStormerVerlet, ScipyIVP, ScipyDAE, Newton, Riks
 
     return {"Moreau": Moreau, "BackwardEuler": BackwardEuler, "Rattle": Rattle, "DualStormerVerlet": DualStormerVerlet,
-            "ScipyIVP": ScipyIVP, "ScipyDAE": ScipyDAE, "Newton": Newton}
+            "ScipyIVP": ScipyIVP, "ScipyDAE": ScipyDAE, "Newton": Newton, "Riks": Riks}
 
 
 T0 = 0.4375      # a start time whose grid values cannot be mistaken for iteration counts in warning texts
@@ -49,6 +50,9 @@ def _make(solver_name, system, nsteps, cwu, extra=None, **optkw):
     Sv = _solvers()[solver_name]
     if solver_name == "Newton":
         return lambda: Sv(system, n_load_steps=nsteps - 1, verbose=False, options=SolverOptions(continue_with_unconverged=cwu))
+    if solver_name == "Riks":
+        import numpy as np
+        return lambda: Sv(system, la_arc0=0.2, la_arc_span=np.array([0.0, 1.0]), max_load_steps=RIKS_MAX, options=SolverOptions(continue_with_unconverged=cwu))
     if solver_name in ("ScipyIVP", "ScipyDAE"):
         return lambda: Sv(system, system.t0 + nsteps * DT, DT, **(extra or {}))
     return lambda: Sv(system, system.t0 + nsteps * DT, DT, options=SolverOptions(continue_with_unconverged=cwu, **optkw))
@@ -84,7 +88,7 @@ def run(ctx):
     import os
     cfg = os.path.join(ctx.scratch, "solverrun.cfg")
     with open(cfg, "w") as f:
-        f.write('SPECIFICATION Spec\nCONSTANTS\n  Solvers = {"Moreau", "BackwardEuler", "Rattle", "DualStormerVerlet", "Newton", "ScipyIVP", "ScipyDAE"}\n'
+        f.write('SPECIFICATION Spec\nCONSTANTS\n  Solvers = {"Moreau", "BackwardEuler", "Rattle", "DualStormerVerlet", "Newton", "Riks", "ScipyIVP", "ScipyDAE"}\n'
                 f'  PartSets = "{"all" if ctx.thorough else "some"}"\n  MaxSteps = {4 if ctx.thorough else 3}\n  MaxFaults = {3 if ctx.thorough else 2}\n'
                 "INVARIANT NeverSilent\nINVARIANT OnlyConvergedRowsWithoutCWU\nINVARIANT NoSilentIgnore\nINVARIANT RowsMatch\nCONSTRAINT Bounded\n")
     r = tlc.run_tlc("SolverRun", cfg, scratch=ctx.scratch, timeout=3000, coverage=True)
@@ -105,13 +109,15 @@ def run(ctx):
             combos.append((sc, mk, sn))
     combos.append(("static", lambda: S.sys_static_spring(True), "Newton"))
     combos.append(("static_c", lambda: S.sys_static_spring(False), "Newton"))
+    combos.append(("static", lambda: S.sys_static_spring(True), "Riks"))
+    combos.append(("static_c", lambda: S.sys_static_spring(False), "Riks"))
     n_injected = 0
     n_not_injectable = 0
     for sc, mk, sn in combos:
         for cwu in (False, True):
             if sn in ("ScipyIVP", "ScipyDAE") and cwu:
                 continue          # the wrappers have no such option
-            ns = nsteps + 1 if sn == "Newton" else nsteps
+            ns = nsteps + 1 if sn == "Newton" else (RIKS_MAX + 1 if sn == "Riks" else nsteps)
             try:
                 system = mk()
             except Exception as ex:
@@ -160,7 +166,11 @@ def run(ctx):
     ctx.log(f"[C21] {len(all_runs)} recorded runs ({n_injected} with injected faults) validated by TLC: {nbad} rejected")
     samples = [{"desc": d, "events": [(e["e"], e.get("site"), e.get("ok")) for e in r_.events][:16]} for _, r_, d in all_runs if d["faults"]][:3]
     nontrivial = len({(d["solver"], d["scenario"], d["cwu"], str(d["faults"])) for _, _, d in all_runs if d["faults"]})
-    ctx.coverage = {"evaluations": len(all_runs), "distinct_nontrivial": nontrivial, "samples": samples,
+    per_solver = {}
+    for _, r_, d in all_runs:
+        k = d["solver"] + (":faulty" if d["faults"] else ":fault-free")
+        per_solver[k] = per_solver.get(k, 0) + 1
+    ctx.coverage = {"evaluations": len(all_runs), "distinct_nontrivial": nontrivial, "samples": samples, "runs_per_solver": per_solver,
                     "rule": "one execution per (solver, scenario, option value, fault plan); plans = every occurrence of every site of the "
                             "fault-free run, pairs under continue_with_unconverged; non-trivial = at least one injected or provoked fault; "
                             "every execution is validated by TLC against TraceSolverRun",
